@@ -195,10 +195,10 @@ func (e *Engine) describe(v ssa.Value) string {
 		}
 	case *ssa.FieldAddr:
 		st := x.X.Type().Underlying().(*types.Pointer).Elem().Underlying().(*types.Struct)
-		return e.describe(x.X) + "." + st.Field(x.Field).Name()
+		return e.describe(x.X) + "." + fieldName(st.Field(x.Field))
 	case *ssa.Field:
 		st := x.X.Type().Underlying().(*types.Struct)
-		return e.describe(x.X) + "." + st.Field(x.Field).Name()
+		return e.describe(x.X) + "." + fieldName(st.Field(x.Field))
 	case *ssa.IndexAddr:
 		return e.describe(x.X) + "[" + e.describe(x.Index) + "]"
 	case *ssa.Index:
@@ -1562,7 +1562,7 @@ func (e *Engine) chanClass(v ssa.Value) string {
 		switch a := x.X.(type) {
 		case *ssa.FieldAddr:
 			st := a.X.Type().Underlying().(*types.Pointer).Elem()
-			return typeKey(st) + "." + st.Underlying().(*types.Struct).Field(a.Field).Name()
+			return typeKey(st) + "." + fieldName(st.Underlying().(*types.Struct).Field(a.Field))
 		case *ssa.Alloc:
 			return "var:" + e.allocName(a)
 		case *ssa.FreeVar:
@@ -1570,7 +1570,7 @@ func (e *Engine) chanClass(v ssa.Value) string {
 		}
 	case *ssa.Field:
 		st := x.X.Type()
-		return typeKey(st) + "." + st.Underlying().(*types.Struct).Field(x.Field).Name()
+		return typeKey(st) + "." + fieldName(st.Underlying().(*types.Struct).Field(x.Field))
 	case *ssa.Parameter:
 		return "var:" + e.vname(x.Parent(), x.Name())
 	case *ssa.ChangeType:
